@@ -239,15 +239,9 @@ func (s *server) cleanupPreviousSession(previousSession *syncSession) {
 	if previousSession.partCtx == nil {
 		return
 	}
-	if previousSession.partCtx.Handler != nil {
-		if finishErr := previousSession.partCtx.Handler.FinishSync(); finishErr != nil {
-			if s.metrics != nil {
-				op, grp, sn, sr, st := s.resolveSessionLabels(previousSession)
-				s.metrics.totalErr.Inc(1, op, grp, sn, sr, st, "finish_sync_err")
-			}
-			s.log.Error().Err(finishErr).Str("session_id", previousSession.sessionID).Msg("failed to finish sync for previous session")
-		}
-	}
+	// The previous session never reached its completion message, so the part it
+	// was receiving cannot be known to be complete: Close discards it (FinishSync
+	// would install a truncated part). The sender transfers it again.
 	if closeErr := previousSession.partCtx.Close(); closeErr != nil {
 		s.log.Error().Err(closeErr).Str("session_id", previousSession.sessionID).Msg("failed to close previous session partCtx")
 	}
@@ -297,7 +291,8 @@ func (s *server) processChunkSequential(stream clusterv1.ChunkedSyncService_Sync
 		return s.sendResponse(stream, req, clusterv1.SyncStatus_SYNC_STATUS_CHUNK_OUT_OF_ORDER, errMsg, nil)
 	}
 
-	return s.processExpectedChunk(stream, session, req)
+	_, processErr := s.processExpectedChunk(stream, session, req)
+	return processErr
 }
 
 func (s *server) processChunkWithReordering(stream clusterv1.ChunkedSyncService_SyncPartServer, session *syncSession, req *clusterv1.SyncPartRequest) error {
@@ -309,8 +304,14 @@ func (s *server) processChunkWithReordering(stream clusterv1.ChunkedSyncService_
 	buffer.lastActivity = time.Now()
 
 	if req.ChunkIndex == buffer.expectedIndex {
-		if processErr := s.processExpectedChunk(stream, session, req); processErr != nil {
+		accepted, processErr := s.processExpectedChunk(stream, session, req)
+		if processErr != nil {
 			return processErr
+		}
+		if !accepted {
+			// The chunk was rejected (checksum mismatch, server busy): keep waiting
+			// for it, otherwise the sender's retry would be ignored as a duplicate.
+			return nil
 		}
 		buffer.expectedIndex++
 
@@ -378,7 +379,10 @@ func (s *server) processChunkWithReordering(stream clusterv1.ChunkedSyncService_
 	return nil
 }
 
-func (s *server) processExpectedChunk(stream clusterv1.ChunkedSyncService_SyncPartServer, session *syncSession, req *clusterv1.SyncPartRequest) error {
+// processExpectedChunk handles the chunk the session is waiting for. It reports whether the
+// chunk was accepted (its data handed to the part handler); a rejected chunk has been answered
+// with the reason and must be sent again.
+func (s *server) processExpectedChunk(stream clusterv1.ChunkedSyncService_SyncPartServer, session *syncSession, req *clusterv1.SyncPartRequest) (bool, error) {
 	calculatedChecksum := fmt.Sprintf("%x", crc32.ChecksumIEEE(req.ChunkData))
 	if calculatedChecksum != req.ChunkChecksum {
 		errMsg := fmt.Sprintf("chunk %d checksum mismatch: expected %s, got %s",
@@ -388,7 +392,7 @@ func (s *server) processExpectedChunk(stream clusterv1.ChunkedSyncService_SyncPa
 			op, grp, sn, sr, st := s.resolveSessionLabels(session)
 			s.metrics.totalErr.Inc(1, op, grp, sn, sr, st, "checksum_mismatch")
 		}
-		return s.sendResponse(stream, req, clusterv1.SyncStatus_SYNC_STATUS_CHUNK_CHECKSUM_MISMATCH, errMsg, nil)
+		return false, s.sendResponse(stream, req, clusterv1.SyncStatus_SYNC_STATUS_CHUNK_CHECKSUM_MISMATCH, errMsg, nil)
 	}
 
 	session.totalReceived += uint64(len(req.ChunkData))
@@ -397,13 +401,13 @@ func (s *server) processExpectedChunk(stream clusterv1.ChunkedSyncService_SyncPa
 	var topic bus.Topic
 	t, ok := data.TopicMap[session.metadata.Topic]
 	if !ok {
-		return fmt.Errorf("unknown sync topic: %s", session.metadata.Topic)
+		return false, fmt.Errorf("unknown sync topic: %s", session.metadata.Topic)
 	}
 	topic = t
 
 	handler, exists := s.chunkedSyncHandlers[topic]
 	if !exists {
-		return fmt.Errorf("no handler registered for topic %s", topic)
+		return false, fmt.Errorf("no handler registered for topic %s", topic)
 	}
 
 	for partIndex, partInfo := range req.PartsInfo {
@@ -412,7 +416,7 @@ func (s *server) processExpectedChunk(stream clusterv1.ChunkedSyncService_SyncPa
 
 		if createNewContext && session.partCtx != nil && session.partCtx.Handler != nil {
 			if finishErr := session.partCtx.Handler.FinishSync(); finishErr != nil {
-				return fmt.Errorf("failed to complete part %d: %w", session.partCtx.ID, finishErr)
+				return false, fmt.Errorf("failed to complete part %d: %w", session.partCtx.ID, finishErr)
 			}
 		}
 
@@ -434,7 +438,7 @@ func (s *server) processExpectedChunk(stream clusterv1.ChunkedSyncService_SyncPa
 			}
 			partHandler, createErr := handler.CreatePartHandler(session.partCtx)
 			if createErr != nil {
-				return fmt.Errorf("failed to create part handler: %w", createErr)
+				return false, fmt.Errorf("failed to create part handler: %w", createErr)
 			}
 			session.partCtx.Handler = partHandler
 		} else if session.partCtx.PartType != partInfo.PartType {
@@ -448,13 +452,13 @@ func (s *server) processExpectedChunk(stream clusterv1.ChunkedSyncService_SyncPa
 			session.partCtx.MaxKey = partInfo.MaxKey
 			session.partCtx.PartType = partInfo.PartType
 			if newPartErr := session.partCtx.Handler.NewPartType(session.partCtx); newPartErr != nil {
-				return fmt.Errorf("failed to new part type: %w", newPartErr)
+				return false, fmt.Errorf("failed to new part type: %w", newPartErr)
 			}
 		}
 
 		if processErr := s.processPart(session, req, partInfo, partIndex, handler); processErr != nil {
 			if errors.Is(processErr, queue.ErrServerBusy) {
-				return s.sendResponse(stream, req, clusterv1.SyncStatus_SYNC_STATUS_SERVER_BUSY,
+				return false, s.sendResponse(stream, req, clusterv1.SyncStatus_SYNC_STATUS_SERVER_BUSY,
 					"receiver under memory pressure, retry later", nil)
 			}
 			s.log.Error().Err(processErr).
@@ -466,11 +470,11 @@ func (s *server) processExpectedChunk(stream clusterv1.ChunkedSyncService_SyncPa
 				op, grp, sn, sr, st := s.resolveSessionLabels(session)
 				s.metrics.totalErr.Inc(1, op, grp, sn, sr, st, "part_failed")
 			}
-			return processErr
+			return false, processErr
 		}
 	}
 
-	return s.sendResponse(stream, req, clusterv1.SyncStatus_SYNC_STATUS_CHUNK_RECEIVED, "", nil)
+	return true, s.sendResponse(stream, req, clusterv1.SyncStatus_SYNC_STATUS_CHUNK_RECEIVED, "", nil)
 }
 
 func (s *server) processBufferedChunks(stream clusterv1.ChunkedSyncService_SyncPartServer, session *syncSession) error {
@@ -488,8 +492,13 @@ func (s *server) processBufferedChunks(stream clusterv1.ChunkedSyncService_SyncP
 					Msg("processing buffered chunk")
 			}
 
-			if processErr := s.processExpectedChunk(stream, session, chunk); processErr != nil {
+			accepted, processErr := s.processExpectedChunk(stream, session, chunk)
+			if processErr != nil {
 				return processErr
+			}
+			if !accepted {
+				// The buffered copy was rejected and is gone: wait for it again.
+				break
 			}
 			buffer.expectedIndex++
 		} else {
@@ -582,23 +591,41 @@ func (s *server) processPart(session *syncSession, req *clusterv1.SyncPartReques
 	return nil
 }
 
+// incompleteReason compares what the session has processed with what the sender announces
+// in its completion message (a sender that announces nothing is not checked). It returns ""
+// when every announced chunk and byte has been processed.
+func incompleteReason(session *syncSession, completion *clusterv1.SyncCompletion) string {
+	if session.chunkBuffer != nil && len(session.chunkBuffer.chunks) > 0 {
+		return fmt.Sprintf("chunk %d is missing, %d later chunks are still buffered",
+			session.chunkBuffer.expectedIndex, len(session.chunkBuffer.chunks))
+	}
+	if completion.GetTotalChunks() > 0 && completion.GetTotalChunks() != session.chunksReceived {
+		return fmt.Sprintf("sender sent %d chunks, %d were processed", completion.GetTotalChunks(), session.chunksReceived)
+	}
+	if completion.GetTotalBytesSent() > 0 && completion.GetTotalBytesSent() != session.totalReceived {
+		return fmt.Sprintf("sender sent %d bytes, %d were processed", completion.GetTotalBytesSent(), session.totalReceived)
+	}
+	return ""
+}
+
 func (s *server) handleCompletion(stream clusterv1.ChunkedSyncService_SyncPartServer, session *syncSession, req *clusterv1.SyncPartRequest) error {
-	if session.partCtx != nil && session.partCtx.Handler != nil {
-		if finishErr := session.partCtx.Handler.FinishSync(); finishErr != nil {
-			if s.metrics != nil {
-				op, grp, sn, sr, st := s.resolveSessionLabels(session)
-				s.metrics.totalErr.Inc(1, op, grp, sn, sr, st, "finish_sync_err")
-			}
-			return fmt.Errorf("failed to complete part %d: %w", session.partCtx.ID, finishErr)
+	// The part under construction is installed (FinishSync) only if everything the sender
+	// announces has been processed and no part is short of data. Otherwise it is discarded
+	// and the session fails, so that the sender keeps the data and transfers it again.
+	incomplete := incompleteReason(session, req.GetCompletion())
+	if incomplete != "" {
+		session.errorMsg = "incomplete transfer: " + incomplete
+		if s.metrics != nil {
+			op, grp, sn, sr, st := s.resolveSessionLabels(session)
+			s.metrics.totalErr.Inc(1, op, grp, sn, sr, st, "incomplete")
 		}
-		session.partCtx.Handler = nil
 	}
 
 	partsResults := make([]*clusterv1.PartResult, 0, len(session.partsProgress))
-	allPartsSuccessful := true
+	allPartsSuccessful := incomplete == ""
 
 	for _, progress := range session.partsProgress {
-		success := progress.completed
+		success := progress.completed && incomplete == ""
 		if !success {
 			allPartsSuccessful = false
 		}
@@ -608,6 +635,26 @@ func (s *server) handleCompletion(stream clusterv1.ChunkedSyncService_SyncPartSe
 			Error:          session.errorMsg,
 			BytesProcessed: progress.receivedBytes,
 		})
+	}
+
+	if !allPartsSuccessful && session.errorMsg == "" {
+		session.errorMsg = "incomplete transfer: a part received fewer bytes than its chunks announced"
+	}
+	if !allPartsSuccessful && session.partCtx != nil {
+		s.log.Warn().Str("session_id", session.sessionID).Str("reason", session.errorMsg).Msg("discarding the part of an incomplete chunked sync session")
+		if closeErr := session.partCtx.Close(); closeErr != nil {
+			s.log.Error().Err(closeErr).Str("session_id", session.sessionID).Msg("failed to close incomplete part")
+		}
+	}
+	if session.partCtx != nil && session.partCtx.Handler != nil {
+		if finishErr := session.partCtx.Handler.FinishSync(); finishErr != nil {
+			if s.metrics != nil {
+				op, grp, sn, sr, st := s.resolveSessionLabels(session)
+				s.metrics.totalErr.Inc(1, op, grp, sn, sr, st, "finish_sync_err")
+			}
+			return fmt.Errorf("failed to complete part %d: %w", session.partCtx.ID, finishErr)
+		}
+		session.partCtx.Handler = nil
 	}
 
 	syncResult := &clusterv1.SyncResult{
@@ -641,7 +688,7 @@ func (s *server) handleCompletion(stream clusterv1.ChunkedSyncService_SyncPartSe
 			Msg("completed chunked sync session")
 	}
 
-	return s.sendResponse(stream, req, clusterv1.SyncStatus_SYNC_STATUS_SYNC_COMPLETE, "", syncResult)
+	return s.sendResponse(stream, req, clusterv1.SyncStatus_SYNC_STATUS_SYNC_COMPLETE, session.errorMsg, syncResult)
 }
 
 func (s *server) sendResponse(
